@@ -798,11 +798,24 @@ mod sx {
     /// points, and a race on it is only reachable by real preemption. A mismatch here is a real
     /// wrong answer; silence proves nothing.
     pub fn stress(threads: usize, millis: u64) -> (u64, Option<String>) {
+        // two phases: the default discard policy (fast queries, many overlaps) and a policy whose
+        // cleanup is due at every acquisition (the bookkeeping around the lock has work to do)
+        let (r1, b1) = stress_phase(threads, millis * 3 / 5, false);
+        if b1.is_some() {
+            return (r1, b1);
+        }
+        let (r2, b2) = stress_phase(threads, millis * 2 / 5, true);
+        (r1 + r2, b2.map(|b| format!("(cleanup due at every acquisition) {}", b)))
+    }
+    fn stress_phase(threads: usize, millis: u64, aggressive: bool) -> (u64, Option<String>) {
         use std::sync::atomic::{AtomicBool, AtomicU64, Ordering};
         let all: Vec<Q> = vec![Q::Check(0), Q::Check(2), Q::Check(6), Q::Check(8), Q::Check(9), Q::Check(10), Q::Csp, Q::CspGh, Q::CspGhP, Q::Cosmetic, Q::CosmeticGh, Q::Hidden];
         // default discard policy: the queries are fast, which is what makes overlaps likely
         let mut e = Engine::from_rules_parametrised(RULES, Default::default(), true, false);
         e.use_tags(&["t"]);
+        if aggressive {
+            e.set_regex_discard_policy(RegexManagerDiscardPolicy { cleanup_interval: Duration::from_nanos(1), discard_unused_time: Duration::ZERO });
+        }
         let expect: Vec<String> = all.iter().map(|q| ask(&e, *q)).collect();
         let stop = AtomicBool::new(false);
         let rounds = AtomicU64::new(0);
